@@ -53,6 +53,7 @@ struct Core {
 	// script-driven environment for the next map() call of the current op
 	bool fail_next = false;
 	size_t skip_units = 0;
+	bool quiet = false;            // churn: policy calls are made but not printed
 
 	// policy log / registries (real addresses)
 	std::map<uintptr_t, size_t> regions;       // outstanding map answers
@@ -89,7 +90,7 @@ struct Core {
 		}
 		cur = ARENA_UNIT * 16; poisoned_hi = 0; dirty_hi = 0;
 		recycled.clear(); recycle = false; ci = c;
-		fail_next = false; skip_units = 0;
+		fail_next = false; skip_units = 0; quiet = false;
 		regions.clear(); shadow.clear(); held = 0;
 		run_open = false; cur_free_p = 0;
 		begin_op();
@@ -139,6 +140,7 @@ struct Core {
 	// ---- canonical callback lines
 	void flush_run() {
 		if(!run_open) return;
+		if(quiet) { run_open = false; return; }
 		if(run_cnt == 1) printf("unpoison %llu %zu\n", (ull)v(run_a0), run_n);
 		else printf("unpoison* %llu %zu %zu %zu\n", (ull)v(run_a0), run_n, run_stride, run_cnt);
 		run_open = false;
@@ -159,7 +161,7 @@ struct Core {
 		if(held) vh::oracle("lock-at-callback", "map() called with %d pool lock(s) held", held);
 		if(fail_next) {
 			fail_next = false; op_failed_maps++;
-			printf("map %zu %zu 0\n", len, al);
+			if(!quiet) printf("map %zu %zu 0\n", len, al);
 			return 0;
 		}
 		size_t off = 0; bool reused = false;
@@ -181,12 +183,12 @@ struct Core {
 		regions[r] = len;
 		if(!ci->poison) { VH_UNPOISON((void *)r, len); sh_set(r, len, true); }   // a policy without poison hooks hands out plain memory
 		op_map_r = r; op_map_len = len;
-		printf("map %zu %zu %llu\n", len, al, (ull)v(r));
+		if(!quiet) printf("map %zu %zu %llu\n", len, al, (ull)v(r));
 		return r;
 	}
 	void do_unmap(uintptr_t b, size_t len) {
 		flush_run(); op_cbs++; op_unmaps++;
-		printf("unmap %llu %zu\n", (ull)v(b), len);
+		if(!quiet) printf("unmap %llu %zu\n", (ull)v(b), len);
 		if(held) vh::oracle("lock-at-callback", "unmap() called with %d pool lock(s) held", held);
 		auto it = regions.find(b);
 		if(it == regions.end()) { vh::oracle("unmap", "unmap(%llu, %zu): base is not an outstanding map() answer", (ull)v(b), len); return; }
@@ -214,19 +216,19 @@ struct Core {
 	}
 	void do_poison(void *p, size_t n) {
 		flush_run(); op_cbs++;
-		printf("poison %llu %zu\n", (ull)v((uintptr_t)p), n);
+		if(!quiet) printf("poison %llu %zu\n", (ull)v((uintptr_t)p), n);
 		n = range_check("poison", (uintptr_t)p, n);
 		VH_POISON(p, n); sh_set((uintptr_t)p, n, false);
 	}
 	void do_unpoison(void *p, size_t n) {
 		op_cbs++;
-		line_unpoison((uintptr_t)p, n);
+		if(!quiet) line_unpoison((uintptr_t)p, n);
 		n = range_check("unpoison", (uintptr_t)p, n);
 		VH_UNPOISON(p, n); sh_set((uintptr_t)p, n, true);
 	}
 	void do_unpoison_expand(void *p, size_t n) {
 		flush_run(); op_cbs++;
-		printf("unpoison_expand %llu %zu\n", (ull)v((uintptr_t)p), n);
+		if(!quiet) printf("unpoison_expand %llu %zu\n", (ull)v((uintptr_t)p), n);
 		n = range_check("unpoison_expand", (uintptr_t)p, n);
 		VH_UNPOISON(p, n); sh_set((uintptr_t)p, n, true);
 	}
@@ -548,6 +550,28 @@ struct Runner {
 		set_slot(sl, p);
 	}
 
+	// <count> allocate/free pairs of <n> bytes in a tight loop (policy calls are made but not printed)
+	void op_churn(size_t n, uint64_t count) {
+		g.begin_op(); g.fail_next = false; g.skip_units = 0; g.quiet = true;
+		for(uint64_t i = 0; i < count; i++) {
+			void *p = pool.allocate(n);
+			if(!p) { g.quiet = false; vh::oracle("mapfail", "allocate(%zu) returned null during churn although no map() failed", n); break; }
+			if(i == 0 || i + 1 == count) {          // first and last pair go through the full oracle
+				bool mapped_now = g.op_maps > g.op_failed_maps; g.quiet = false;
+				born((uintptr_t)p, n, mapped_now); g.begin_op(); g.cur_free_p = (uintptr_t)p; g.quiet = true;
+				pool.free(p);
+				g.quiet = false; died((uintptr_t)p); g.cur_free_p = 0; g.begin_op(); g.quiet = true;
+			} else {
+				if(g.op_maps) { g.quiet = false; vh::oracle("footprint", "churn of %zu bytes mapped memory in pair %llu", n, (ull)i); g.quiet = true; g.begin_op(); }
+				g.cur_free_p = (uintptr_t)p;
+				pool.free(p);
+				g.cur_free_p = 0;
+			}
+		}
+		g.quiet = false; g.run_open = false;
+		printf("= churn used=%zu\n", pool.numUsedPages());
+	}
+
 	void op_free(size_t sl, bool sized, size_t n) {
 		void *p = slot(sl);
 		g.begin_op(); g.fail_next = false; g.cur_free_p = (uintptr_t)p;
@@ -628,6 +652,7 @@ struct Runner {
 			const std::string &o = t[0];
 			opno++;
 			if(o == "a" && t.size() >= 4) op_alloc(vh::u64(t[1]), vh::u64(t[2]), t[3]);
+			else if(o == "churn" && t.size() >= 3) op_churn(vh::u64(t[1]), vh::u64(t[2]));
 			else if(o == "f" && t.size() >= 2) op_free(vh::u64(t[1]), false, 0);
 			else if(o == "d" && t.size() >= 3) op_free(vh::u64(t[1]), true, vh::u64(t[2]));
 			else if(o == "r" && t.size() >= 4) op_realloc(vh::u64(t[1]), vh::u64(t[2]), t[3]);
